@@ -325,6 +325,6 @@ theorem documented_sanitized_fields_covered :
 
 /-- non-vacuity: an RSS title that looks like HTML is guessed to be text/html and goes through the sanitizer (here a stub that drops everything) -/
 example : (contentOutput { base := ⟨fun _ r => r, fun u => u, fun _ r => r⟩, join := fun _ u => u, fix := id, loose := false, looksHtml := fun _ => true, sanitize := fun _ _ => S "CLEAN" }
-    { version := S "rss20", cp := some ⟨S "text/plain", none, "", false⟩ } (S "title") (S "<b>x</b>")) = (some (S "text/html"), S "CLEAN") := by decide +kernel
+    { version := S "rss20", cp := some { type := S "text/plain", lang := none, base := "", base64 := false } } (S "title") (S "<b>x</b>")) = (some (S "text/html"), S "CLEAN") := by decide +kernel
 
 end FeedVerif.Mixin
